@@ -171,9 +171,33 @@ def _err_row(e):
     return [1, core.canon_code(core.classify_exception(e))]
 
 
-def _snap(o):
-    from harness import liveprobe
-    return liveprobe.snap(o)
+def _snap(o, depth=0):
+    """caller-visible state of an object the caller handed in: its public attributes and public properties,
+    recursively (private caches a class may fill lazily are not part of it)"""
+    import enum
+    if isinstance(o, enum.Enum):
+        return ("enum", type(o).__name__, o.value)
+    if isinstance(o, (int, float, str, bool, type(None))):
+        return o
+    if isinstance(o, (bytes, bytearray, memoryview)):
+        return ("octets", bytes(o))
+    if depth > 6:
+        return ("deep",)
+    if isinstance(o, (list, tuple)):
+        return [_snap(x, depth + 1) for x in o]
+    d = getattr(o, "__dict__", None)
+    if d is None:
+        return ("obj", type(o).__name__)
+    out = [(k, _snap(v, depth + 1)) for k, v in sorted(d.items()) if not k.startswith("_")]
+    for name in sorted(dir(type(o))):
+        if name.startswith("_") or "crc" in name or not isinstance(getattr(type(o), name, None), property):
+            continue
+        try:
+            v = getattr(o, name)
+        except Exception as e:  # noqa
+            v = ("raises", type(e).__name__)
+        out.append((name, _snap(v, depth + 1)))
+    return (type(o).__name__, out)
 
 
 def _pfe_build(l):
